@@ -140,6 +140,14 @@ func TestC04(t *testing.T) {
 						ck.multistore("reopen-past", fmt.Sprintf("after reopen at %d, lazy view %d", v, pv), h,
 							func(st int) stypes.KVStore { return view.GetKVStore(nd.keys[st]) }, h.snaps[pv])
 					}
+					// the same past version read on the long-running, never-reopened replica: a saved version must read the same
+					// before and after a restart (both equal to the model of that version)
+					if rview, rerr := replica.lazyView(pv); rerr != nil {
+						c.Violation("C04/replica/past-version-not-loadable", "never-reopened replica at %d: LoadLazyVersion(%d): %v", v, pv, rerr)
+					} else {
+						ck.multistore("replica-past", fmt.Sprintf("never-reopened replica at %d, lazy view %d", v, pv), h,
+							func(st int) stypes.KVStore { return rview.GetKVStore(replica.keys[st]) }, h.snaps[pv])
+					}
 					// and LoadVersion(v') on a separate instance (reopening at a retained version)
 					if rapid.Bool().Draw(rt, "loadOlder") {
 						ov := rapid.Int64Range(1, v-1).Draw(rt, "olderVersion")
